@@ -1,6 +1,6 @@
 ID = 'C06'
-CUTS = [r'^_ZN5phosg13string_printfEPKcz$']
-UNITS = {'img': dict(wrap='wrap.cc', shim=True, new_block=64, cxxflags=['-U_FORTIFY_SOURCE', '-D_FORTIFY_SOURCE=0'], cuts=CUTS)}
+CUTS = [r'^_ZN5phosg13string_printfB5cxx11EPKcz$']
+UNITS = {'img': dict(wrap='wrap.cc', shim=True, new_block=64, cxxflags=['-U_FORTIFY_SOURCE', '-D_FORTIFY_SOURCE=0'], cuts=CUTS, gen_defs=['VERIF_EXC_POOL=4'])}
 BOUNDS = ''
 STUBS = []
 OUTSIDE = []
@@ -15,7 +15,7 @@ def queries(tier):
         full = 14 + (124 if A else 40) + ((W * (3 + A) + 3) // 4 * 4) * H
         return dict(name='bmp_roundtrip_%dx%da%d' % (W, H, A), unit='img', harness='h_bmp_rt.c', defs={'W': W, 'H': H, 'ALPHA': A}, unwind=max(W * (3 + A) + 3, H + 2, 6),
                     unwindset='in_bytes.0:%d,w_set_data.0:%d,verif_memset_loop.0:%d,X_fread.0:%d,X_fwrite.0:%d,verif_memcpy_loop.0:%d' % (n, n, n, 126, 126, 126), timeout=900, mem_gb=8, object_bits=12,
-                    flags=['--memory-leak-check'],
+                    flags=['--memory-leak-check', '--max-field-sensitivity-array-size', '256'],
                     desc='BMP save of a %dx%d image (alpha=%d): header fields/rows/padding per the format, independent decode of the checked pixel, load of every prefix length: io_error or identical' % (W, H, A),
                     bounds='image %dx%d, all pixel bytes, every truncation length 0..%d' % (W, H, full))
     if tier == 'quick':
